@@ -74,7 +74,7 @@ def gen_case(rng, tag, forced_roles=None):
 
 def parse_out(out):
     its = []
-    for sec in out.strip().split(" # "):
+    for sec in out.strip().rstrip("#").strip().split(" # "):      # (the driver ends every section with " # ", the last one too)
         sec = sec.strip()
         if not sec:
             continue
